@@ -232,6 +232,17 @@ func NewCollection(options CollectionOptions) (*Collection, error) {
 		}
 	}
 
+	// A new collection must be able to store its documents: reject options
+	// that would make every AddDocument panic.
+	if !fileExists && options.FileMode != ReadOnly {
+		if options.DimensionCount < 1 {
+			return nil, fmt.Errorf("unsupported dimension count %d", options.DimensionCount)
+		}
+		if options.Quantization != 0 && !supportedQuantization(options.Quantization) {
+			return nil, fmt.Errorf("unsupported quantization %d", options.Quantization)
+		}
+	}
+
 	// Open or create the memory-mapped file with the specified mode
 	spanFile, err := OpenFile(options.Name, options.FileMode)
 	if err != nil {
@@ -800,6 +811,14 @@ func decodeVector(data []byte, dimensions int, quantization int) []float64 {
 	}
 
 	return vector
+}
+
+func supportedQuantization(quantization int) bool {
+	switch quantization {
+	case 4, 8, 16, 32, 64:
+		return true
+	}
+	return false
 }
 
 func getVectorSize(quantization int, dimensions int) int {
